@@ -1173,3 +1173,338 @@ Proof.
   unfold tree_eqb in HB. simpl in HB. apply andb_true_iff in HB. destruct HB as [Hf Hs].
   apply Nat.eqb_eq in Hf. apply Qeq_bool_iff in Hs. split; assumption.
 Qed.
+
+(* ================= extreme binnings: edges from segments, sparse observations ================= *)
+
+(* ----- seg_edges is a valid binning with segs_count bins ----- *)
+Lemma increasing_cons_all a l : increasing l -> (forall x, In x l -> a < x) -> increasing (a :: l).
+Proof. intros Hl Ha. destruct l as [|b t]; simpl; [exact I|]. split; [apply Ha; left; reflexivity|exact Hl]. Qed.
+
+Lemma increasing_in_gt a l x : increasing (a :: l) -> In x l -> a < x.
+Proof.
+  intros Hinc Hin. destruct (In_nth l x 0 Hin) as [j [Hj Hx]]. rewrite <- Hx.
+  apply increasing_hd_lt; assumption.
+Qed.
+
+Lemma increasing_app l1 l2 :
+  increasing l1 -> increasing l2 -> (forall x y, In x l1 -> In y l2 -> x < y) -> increasing (l1 ++ l2).
+Proof.
+  induction l1 as [|a l1 IH]; intros H1 H2 H12; [exact H2|].
+  change ((a :: l1) ++ l2) with (a :: (l1 ++ l2)). apply increasing_cons_all.
+  - apply IH; [eapply increasing_tail; exact H1|exact H2|].
+    intros x y Hx Hy. apply H12; [right; exact Hx|exact Hy].
+  - intros x Hx. apply in_app_or in Hx. destruct Hx as [Hx|Hx].
+    + eapply increasing_in_gt; eassumption.
+    + apply H12; [left; reflexivity|exact Hx].
+Qed.
+
+Lemma inject_Z_nonneg n : 0 <= inject_Z (Z.of_nat n).
+Proof. unfold Qle, inject_Z; simpl. lia. Qed.
+
+Lemma seg_run_length start step k n : length (seg_run start step k n) = n.
+Proof. revert k. induction n as [|n IH]; intros k; simpl; [reflexivity|]. rewrite IH. reflexivity. Qed.
+
+Lemma seg_run_props start step : 0 < step -> forall n k,
+  increasing (seg_run start step k n) /\
+  forall x, In x (seg_run start step k n) ->
+    start + inject_Z k * step <= x /\ x <= start + (inject_Z k + inject_Z (Z.of_nat n) - 1) * step.
+Proof.
+  intros Hs. induction n as [|n IH]; intros k; [split; [exact I|intros x []]|].
+  destruct (IH (k + 1)%Z) as [Hi Hb]. cbn [seg_run].
+  assert (E1 : inject_Z (k + 1) == inject_Z k + 1) by (rewrite inject_Z_plus; reflexivity).
+  assert (E2 : inject_Z (Z.of_nat (S n)) == inject_Z (Z.of_nat n) + 1).
+  { rewrite Nat2Z.inj_succ. unfold Z.succ. rewrite inject_Z_plus. reflexivity. }
+  pose proof (inject_Z_nonneg n) as Hn.
+  assert (Hm : 0 <= inject_Z (Z.of_nat n) * step) by (apply Qmult_le_0_compat; [exact Hn|apply Qlt_le_weak; exact Hs]).
+  split.
+  - apply increasing_cons_all; [exact Hi|]. intros x Hx. destruct (Hb x Hx) as [Hlo _].
+    rewrite E1 in Hlo. nra.
+  - intros x [Hx|Hx].
+    + rewrite <- Hx. rewrite E2. split; nra.
+    + destruct (Hb x Hx) as [Hlo Hhi]. rewrite E1 in Hlo, Hhi. rewrite E2. split; nra.
+Qed.
+
+Lemma seg_edges_from_props segs : (forall s, In s segs -> 0 < fst s) -> forall start,
+  increasing (seg_edges_from start segs) /\ forall x, In x (seg_edges_from start segs) -> start < x.
+Proof.
+  induction segs as [|[step n] r IH]; intros Hpos start; [split; [exact I|intros x []]|].
+  assert (Hs : 0 < step) by (apply (Hpos (step, n)); left; reflexivity).
+  assert (Hr : forall s, In s r -> 0 < fst s) by (intros s Hin; apply Hpos; right; exact Hin).
+  cbn [seg_edges_from].
+  set (start' := Qred (start + inject_Z (Z.of_nat n) * step)).
+  assert (E : start' == start + inject_Z (Z.of_nat n) * step) by apply Qred_correct.
+  destruct (IH Hr start') as [Hi Hgt]. destruct (seg_run_props start step Hs n 1%Z) as [Hri Hrb].
+  pose proof (inject_Z_nonneg n) as Hn.
+  assert (Hm : 0 <= inject_Z (Z.of_nat n) * step) by (apply Qmult_le_0_compat; [exact Hn|apply Qlt_le_weak; exact Hs]).
+  change (inject_Z 1) with 1 in Hrb.
+  split.
+  - apply increasing_app; [exact Hri|exact Hi|]. intros x y Hx Hy.
+    destruct (Hrb x Hx) as [_ Hhi]. specialize (Hgt y Hy). rewrite E in Hgt. nra.
+  - intros x Hx. apply in_app_or in Hx. destruct Hx as [Hx|Hx].
+    + destruct (Hrb x Hx) as [Hlo _]. nra.
+    + specialize (Hgt x Hx). rewrite E in Hgt. nra.
+Qed.
+
+Lemma seg_edges_from_length segs start : length (seg_edges_from start segs) = segs_count segs.
+Proof.
+  revert start. induction segs as [|[step n] r IH]; intros start; [reflexivity|].
+  cbn [seg_edges_from segs_count fold_right snd]. rewrite app_length, seg_run_length, IH. reflexivity.
+Qed.
+
+Theorem seg_edges_valid lo segs : segs_ok segs = true ->
+  increasing (seg_edges lo segs) /\ (2 <= length (seg_edges lo segs))%nat /\
+  nbins (seg_edges lo segs) = segs_count segs.
+Proof.
+  unfold segs_ok. rewrite andb_true_iff, forallb_forall, negb_true_iff, Nat.eqb_neq. intros [Hall Hne].
+  assert (Hpos : forall s, In s segs -> 0 < fst s /\ (0 < snd s)%nat).
+  { intros s Hin. specialize (Hall s Hin). apply andb_true_iff in Hall. destruct Hall as [H1 H2].
+    apply Qltb_lt in H1. apply Nat.ltb_lt in H2. split; assumption. }
+  destruct (seg_edges_from_props segs (fun s Hin => proj1 (Hpos s Hin)) lo) as [Hi Hgt].
+  unfold seg_edges, nbins. cbn [length]. rewrite seg_edges_from_length. split; [|split].
+  - apply increasing_cons_all; [exact Hi|]. intros x Hx. rewrite (Qred_correct lo). apply Hgt. exact Hx.
+  - destruct segs as [|s r]; [exfalso; apply Hne; reflexivity|].
+    destruct (Hpos s (or_introl eq_refl)) as [_ Hc]. cbn [segs_count fold_right]. lia.
+  - lia.
+Qed.
+
+(* ----- the binary index and the chunked search are np.digitize ----- *)
+Lemma digitize_z_eq cr edges z acc : digitize_z cr edges z acc = (acc + Z.of_nat (digitize cr edges z))%Z.
+Proof.
+  revert acc. induction edges as [|e r IH]; intros acc; simpl; [lia|].
+  destruct (passb cr e z); [|lia]. rewrite IH. lia.
+Qed.
+
+Lemma digitize_z_app_stop cr c e t z acc :
+  passb cr e z = false -> digitize_z cr (c ++ e :: t) z acc = digitize_z cr c z acc.
+Proof.
+  intros He. revert acc. induction c as [|x c IH]; intros acc; simpl; [rewrite He; reflexivity|].
+  destruct (passb cr x z); [apply IH|reflexivity].
+Qed.
+
+Lemma digitize_z_app_all cr c t z acc :
+  (forall x, In x c -> passb cr x z = true) ->
+  digitize_z cr (c ++ t) z acc = digitize_z cr t z (acc + Z.of_nat (length c))%Z.
+Proof.
+  revert acc. induction c as [|x c IH]; intros acc Hall; simpl app.
+  - simpl. f_equal. lia.
+  - cbn [digitize_z]. rewrite (Hall x (or_introl eq_refl)). rewrite IH by (intros y Hy; apply Hall; right; exact Hy).
+    f_equal. cbn [length]. lia.
+Qed.
+
+Lemma increasing_app_lt l1 l2 x y : increasing (l1 ++ l2) -> In x l1 -> In y l2 -> x < y.
+Proof.
+  induction l1 as [|a l1 IH]; intros Hinc Hx Hy; [destruct Hx|].
+  change ((a :: l1) ++ l2) with (a :: (l1 ++ l2)) in Hinc. destruct Hx as [Hx|Hx].
+  - subst a. eapply increasing_in_gt; [exact Hinc|]. apply in_or_app. right. exact Hy.
+  - apply IH; [eapply increasing_tail; exact Hinc|exact Hx|exact Hy].
+Qed.
+
+Lemma digitize_ch_eq cr chunks z acc :
+  increasing (concat chunks) -> digitize_ch cr chunks z acc = digitize_z cr (concat chunks) z acc.
+Proof.
+  revert acc. induction chunks as [|c r IH]; intros acc Hinc; [reflexivity|].
+  cbn [digitize_ch]. destruct r as [|[|e' c'] r']; [reflexivity|reflexivity|].
+  set (rest := (e' :: c') :: r') in *.
+  assert (Ec : concat (c :: rest) = c ++ concat rest) by reflexivity.
+  assert (Er : concat rest = e' :: (c' ++ concat r')) by reflexivity.
+  destruct (passb cr e' z) eqn:He.
+  - rewrite IH.
+    + rewrite Ec. symmetry. apply digitize_z_app_all. intros x Hx.
+      apply (passb_mono cr x e' z); [|exact He].
+      rewrite Ec in Hinc. apply (increasing_app_lt c (concat rest)); [exact Hinc|exact Hx|].
+      rewrite Er. left. reflexivity.
+    + rewrite Ec in Hinc. clear -Hinc. induction c as [|a c IHc]; [exact Hinc|].
+      apply IHc. eapply increasing_tail. exact Hinc.
+  - rewrite Ec, Er. symmetry. apply digitize_z_app_stop. exact He.
+Qed.
+
+Lemma chunks_of_concat k l : forall i acc, concat (chunks_of k i acc l) = rev acc ++ l.
+Proof.
+  induction l as [|x r IH]; intros i acc.
+  - cbn [chunks_of concat]. rewrite rev_append_rev, !app_nil_r. reflexivity.
+  - cbn [chunks_of]. destruct i as [|i'].
+    + cbn [concat]. rewrite IH, rev_append_rev, app_nil_r. reflexivity.
+    + rewrite IH. cbn [rev]. rewrite <- app_assoc. reflexivity.
+Qed.
+
+Lemma ixz_eq cr edges objs k :
+  increasing edges ->
+  ixz cr (chunks_of k k [] edges) objs = map (fun o => Z.of_nat (digitize cr edges (oz o))) objs.
+Proof.
+  intros Hinc. unfold ixz. apply map_ext. intros o.
+  rewrite digitize_ch_eq by (rewrite chunks_of_concat; exact Hinc).
+  rewrite chunks_of_concat. cbn [rev app]. rewrite digitize_z_eq. reflexivity.
+Qed.
+
+Lemma group_z_eq (f : obj -> nat) objs i :
+  group_z (map (fun o => Z.of_nat (f o)) objs) objs (Z.of_nat i) = filter (fun o => (f o =? i)%nat) objs.
+Proof.
+  unfold group_z. induction objs as [|o objs IH]; [reflexivity|].
+  cbn [map combine filter fst].
+  assert (E : (Z.of_nat (f o) =? Z.of_nat i)%Z = (f o =? i)%nat).
+  { apply eq_true_iff_eq. rewrite Z.eqb_eq, Nat.eqb_eq. lia. }
+  rewrite E. destruct (f o =? i)%nat; cbn [map snd]; rewrite IH; reflexivity.
+Qed.
+
+Lemma tree_z_eq hasw cr edges objs b :
+  tree_z hasw (Z.of_nat (nbins edges)) (map (fun o => Z.of_nat (digitize cr edges (oz o))) objs) objs (Z.of_nat b) =
+  get_tree hasw cr edges objs b.
+Proof.
+  unfold tree_z, get_tree.
+  replace (Z.of_nat b + 1)%Z with (Z.of_nat (S b)) by lia.
+  rewrite (group_z_eq (fun o => digitize cr edges (oz o)) objs (S b)). fold (group cr edges objs (S b)).
+  assert (K : keep_z (Z.of_nat (nbins edges)) (Z.of_nat (S b)) = keep (nbins edges) (S b)).
+  { unfold keep_z, keep.
+    assert (A1 : (0 <? Z.of_nat (S b))%Z = (0 <? S b)%nat)
+      by (apply eq_true_iff_eq; rewrite Z.ltb_lt, Nat.ltb_lt; lia).
+    assert (A2 : (Z.of_nat (S b) <=? Z.of_nat (nbins edges))%Z = (S b <=? nbins edges)%nat)
+      by (apply eq_true_iff_eq; rewrite Z.leb_le, Nat.leb_le; lia).
+    rewrite A1, A2. reflexivity. }
+  rewrite K. reflexivity.
+Qed.
+
+(* ----- sparse observations: the listed bins and the bins objects are sent to fix all bins ----- *)
+Lemma zlookup_cases {A} (d : A) b s : zlookup d b s = d \/ In (b, zlookup d b s) s.
+Proof.
+  induction s as [|[k t] r IH]; [left; reflexivity|]. cbn [zlookup fst snd].
+  destruct (k =? b)%Z eqn:E.
+  - apply Z.eqb_eq in E. subst k. right. left. reflexivity.
+  - destruct IH as [IH|IH]; [left; exact IH|right; right; exact IH].
+Qed.
+
+Lemma sparse_ok_sound {A} (eqb : A -> A -> bool) d f ix s b :
+  sparse_ok eqb d f ix s = true -> eqb d d = true -> (~ In (b + 1)%Z ix -> f b = d) ->
+  eqb (zlookup d b s) (f b) = true.
+Proof.
+  unfold sparse_ok. rewrite andb_true_iff, !forallb_forall. intros [H1 H2] Hd Hf.
+  destruct (in_dec Z.eq_dec (b + 1)%Z ix) as [Hin|Hnin].
+  - specialize (H2 _ Hin). replace (b + 1 - 1)%Z with b in H2 by lia. exact H2.
+  - destruct (zlookup_cases d b s) as [E|Hin].
+    + rewrite E, (Hf Hnin). exact Hd.
+    + exact (H1 _ Hin).
+Qed.
+
+Lemma group_z_nil ix objs i : ~ In i ix -> group_z ix objs i = [].
+Proof.
+  unfold group_z. revert objs. induction ix as [|k ix IH]; intros objs Hn; [reflexivity|].
+  destruct objs as [|o objs]; [reflexivity|]. cbn [combine filter fst].
+  destruct (k =? i)%Z eqn:E.
+  - apply Z.eqb_eq in E. exfalso. apply Hn. left. exact E.
+  - apply IH. intros Hin. apply Hn. right. exact Hin.
+Qed.
+
+Lemma tree_z_absent hasw nb ix objs b : ~ In (b + 1)%Z ix -> tree_z hasw nb ix objs b = dummy_tree.
+Proof. intros Hn. unfold tree_z. rewrite group_z_nil by exact Hn. reflexivity. Qed.
+
+Lemma tree_eqb_spec (a b : tree) : tree_eqb a b = true -> fst a = fst b /\ snd a == snd b.
+Proof.
+  unfold tree_eqb. rewrite andb_true_iff, Nat.eqb_eq. intros [H1 H2]. split; [exact H1|].
+  apply Qeq_bool_iff. exact H2.
+Qed.
+
+(* the trees of one patch *)
+Lemma strees_ok_sound hasw cr edges objs k o :
+  increasing edges -> (2 <= length edges)%nat ->
+  strees_ok hasw (Z.of_nat (nbins edges)) (ixz cr (chunks_of k k [] edges) objs) objs o = true ->
+  fst o = Z.of_nat (nbins edges) /\
+  forall b, (b < nbins edges)%nat ->
+    fst (zlookup dummy_tree (Z.of_nat b) (snd o)) = spec_count cr edges objs b /\
+    snd (zlookup dummy_tree (Z.of_nat b) (snd o)) == spec_weight hasw cr edges objs b.
+Proof.
+  intros Hinc Hlen. unfold strees_ok. rewrite andb_true_iff, Z.eqb_eq. intros [Hn Hs].
+  split; [exact Hn|]. intros b Hb. rewrite ixz_eq in Hs by exact Hinc.
+  pose proof (sparse_ok_sound tree_eqb dummy_tree _ _ _ (Z.of_nat b) Hs eq_refl
+                (tree_z_absent hasw _ _ objs (Z.of_nat b))) as H.
+  rewrite tree_z_eq in H. apply tree_eqb_spec in H. destruct H as [Hf Hw].
+  destruct (trees_partition hasw cr edges objs Hinc Hlen) as [_ [HP _]].
+  destruct (HP b Hb) as [_ [_ [Pf Pw]]].
+  unfold build_trees_fix in Pf, Pw. rewrite nth_map_seq in Pf, Pw by exact Hb.
+  split; [rewrite Hf; exact Pf|rewrite Hw; exact Pw].
+Qed.
+
+(* per-bin weight sums of one set of objects (histogram of the catalog, one column of sum_weights) *)
+Lemma swsums_ok_sound hasw cr edges objs k o :
+  increasing edges -> (2 <= length edges)%nat ->
+  swsums_ok hasw (Z.of_nat (nbins edges)) (ixz cr (chunks_of k k [] edges) objs) objs o = true ->
+  fst o = Z.of_nat (nbins edges) /\
+  forall b, (b < nbins edges)%nat -> zlookup 0 (Z.of_nat b) (snd o) == spec_weight hasw cr edges objs b.
+Proof.
+  intros Hinc Hlen. unfold swsums_ok. rewrite andb_true_iff, Z.eqb_eq. intros [Hn Hs].
+  split; [exact Hn|]. intros b Hb. rewrite ixz_eq in Hs by exact Hinc.
+  assert (Habs : ~ In (Z.of_nat b + 1)%Z (map (fun o0 => Z.of_nat (digitize cr edges (oz o0))) objs) ->
+                 wsum_z hasw (Z.of_nat (nbins edges)) (map (fun o0 => Z.of_nat (digitize cr edges (oz o0))) objs) objs (Z.of_nat b) = 0).
+  { intros Hnin. unfold wsum_z. rewrite tree_z_absent by exact Hnin. reflexivity. }
+  pose proof (sparse_ok_sound Qeqb 0 _ _ _ (Z.of_nat b) Hs eq_refl Habs) as H.
+  unfold wsum_z in H. rewrite tree_z_eq in H. apply Qeq_bool_iff in H.
+  destruct (trees_partition hasw cr edges objs Hinc Hlen) as [_ [HP _]].
+  destruct (HP b Hb) as [_ [_ [_ Pw]]].
+  unfold build_trees_fix in Pw. rewrite nth_map_seq in Pw by exact Hb.
+  rewrite H. exact Pw.
+Qed.
+
+Lemma ixz_concat cr chunks patches : concat (map (ixz cr chunks) patches) = ixz cr chunks (concat patches).
+Proof. unfold ixz. rewrite <- concat_map. reflexivity. Qed.
+
+Lemma all2b_nth {A B} (p : A -> B -> bool) l1 l2 d1 d2 :
+  all2b p l1 l2 = true -> length l1 = length l2 /\ forall i, (i < length l2)%nat -> p (nth i l1 d1) (nth i l2 d2) = true.
+Proof.
+  unfold all2b. rewrite andb_true_iff, Nat.eqb_eq, forallb_forall. intros [Hl Hall].
+  split; [exact Hl|]. intros i Hi.
+  assert (Hin : In (nth i l1 d1, nth i l2 d2) (combine l1 l2)).
+  { rewrite <- combine_nth by exact Hl. apply nth_In. rewrite combine_length. lia. }
+  exact (Hall _ Hin).
+Qed.
+
+Lemma code7_zero a b c d e f g : code [a; b; c; d; e; f; g] = 0%nat ->
+  a = true /\ b = true /\ c = true /\ d = true /\ e = true /\ f = true /\ g = true.
+Proof. destruct a, b, c, d, e, f, g; vm_compute; intros H; try discriminate H; repeat split. Qed.
+
+(* the checker the harness evaluates on every case of the 'large' family: code 0 means that ALL bins of the
+   binning (those listed and the 10^5 that are not) hold, in every consumer, what the closed-side rule says *)
+Theorem big_case_sound cr hasw lo segs nbz patches trees hist meas :
+  c10_big_case cr hasw lo segs nbz patches trees hist meas = 0%nat ->
+  let edges := seg_edges lo segs in
+  increasing edges /\ (2 <= length edges)%nat /\ Z.of_nat (nbins edges) = nbz /\ nbins edges = segs_count segs /\
+  length trees = length patches /\
+  (forall p, (p < length patches)%nat ->
+     exists s, nth p trees None = Some (nbz, s) /\
+       forall b, (b < nbins edges)%nat ->
+         fst (zlookup dummy_tree (Z.of_nat b) s) = spec_count cr edges (nth p patches []) b /\
+         snd (zlookup dummy_tree (Z.of_nat b) s) == spec_weight hasw cr edges (nth p patches []) b) /\
+  (exists s, hist = Some (nbz, s) /\
+     forall b, (b < nbins edges)%nat -> zlookup 0 (Z.of_nat b) s == nth b (spec_hist hasw cr edges patches) 0) /\
+  (forall m, meas = Some m -> length m = length patches /\
+     forall p, (p < length patches)%nat ->
+       exists s, nth p m (0%Z, []) = (nbz, s) /\
+         forall b, (b < nbins edges)%nat ->
+           zlookup 0 (Z.of_nat b) s == spec_weight hasw cr edges (nth p patches []) b).
+Proof.
+  unfold c10_big_case. cbv zeta. intro H. apply code7_zero in H.
+  destruct H as [H0 [_ [H2 [_ [H4 [_ H6]]]]]].
+  apply andb_true_iff in H6. destruct H6 as [Hsegs Hnb]. apply Z.eqb_eq in Hnb.
+  destruct (seg_edges_valid lo segs Hsegs) as [Hinc [Hlen Hcount]].
+  set (edges := seg_edges lo segs) in *.
+  set (chunks := chunks_of chunk_size chunk_size [] edges) in *.
+  assert (Lpix : length (combine (map (ixz cr chunks) patches) patches) = length patches)
+    by (rewrite combine_length, map_length; lia).
+  assert (Npix : forall p, (p < length patches)%nat ->
+            nth p (combine (map (ixz cr chunks) patches) patches) ([], []) = (ixz cr chunks (nth p patches []), nth p patches [])).
+  { intros p Hp. rewrite combine_nth by (rewrite map_length; reflexivity).
+    rewrite (nth_map_default (ixz cr chunks) patches p [] []) by exact Hp. reflexivity. }
+  split; [exact Hinc|]. split; [exact Hlen|]. split; [exact Hnb|]. split; [exact Hcount|].
+  destruct (all2b_nth _ _ _ None ([], []) H0) as [L0 N0]. rewrite Lpix in L0, N0.
+  split; [exact L0|]. split; [|split].
+  - intros p Hp. specialize (N0 p Hp). rewrite (Npix p Hp) in N0. cbn [fst snd] in N0.
+    destruct (nth p trees None) as [o|]; [|discriminate N0].
+    destruct (strees_ok_sound hasw cr edges _ _ o Hinc Hlen N0) as [Hn Hb].
+    exists (snd o). split; [rewrite <- Hnb, <- Hn; destruct o; reflexivity|exact Hb].
+  - destruct hist as [o|]; [|discriminate H2]. rewrite ixz_concat in H2.
+    destruct (swsums_ok_sound hasw cr edges _ _ o Hinc Hlen H2) as [Hn Hb].
+    exists (snd o). split; [rewrite <- Hnb, <- Hn; destruct o; reflexivity|].
+    intros b Hbb. rewrite (Hb b Hbb). unfold spec_hist. rewrite nth_map_seq by exact Hbb. reflexivity.
+  - intros m Hm. subst meas.
+    destruct (all2b_nth _ _ _ (0%Z, []) ([], []) H4) as [L4 N4]. rewrite Lpix in L4, N4.
+    split; [exact L4|]. intros p Hp. specialize (N4 p Hp). rewrite (Npix p Hp) in N4. cbn [fst snd] in N4.
+    destruct (swsums_ok_sound hasw cr edges _ _ _ Hinc Hlen N4) as [Hn Hb].
+    exists (snd (nth p m (0%Z, []))). split; [rewrite <- Hnb, <- Hn; apply surjective_pairing|exact Hb].
+Qed.
